@@ -9,3 +9,8 @@ import "github.com/evstack/ev-node/block"
 // VerifBlockManager exposes the node's block manager for post-mortem inspection by the
 // deterministic-simulation harness.
 func (n *FullNode) VerifBlockManager() *block.Manager { return n.blockManager }
+
+// VerifP2PStoreHeights returns the current heights of the node's P2P header and data stores.
+func (n *FullNode) VerifP2PStoreHeights() (header, data uint64) {
+	return n.hSyncService.Store().Height(), n.dSyncService.Store().Height()
+}
